@@ -136,3 +136,8 @@ func VerifUsePool() bool { return usePool }
 
 // VerifHashIntArray exposes hashIntArray (iterator_utils.go) for C05 diagnostics.
 func VerifDensePoolLen() int { return len(densePool) }
+
+// VerifFlatIterState exposes the private cursor of a FlatIterator (for BFS state keys).
+func VerifFlatIterState(it *FlatIterator) (track []int, next, last int, done, reverse bool) {
+	return cpInts(it.track), it.nextIndex, it.lastIndex, it.done, it.reverse
+}
